@@ -40,6 +40,7 @@ CONTRACTS = {
         self={'_span_func': ('func', 'helpers.find_span_linear')},
         funcs=FUNCS,
         returns=('list', V),
+        replay_call="lambda m, a: m.SurfaceEvaluator().evaluate(a['datadict'], start=a['g_start'], stop=a['g_stop'])",
         locals={'spans': ('list', VI), 'basis': ('list', ('list', V)), 'eval_points': ('list', V)},
         requires=["datadict['pdimension'] == 2", 'len(g_start) == 2', 'len(g_stop) == 2',
                   'len(%s) == 2' % DEG, 'len(%s) == 2' % KV, 'len(%s) == 2' % SZ, 'len(%s) == 2' % SS,
@@ -68,6 +69,58 @@ CONTRACTS = {
                            'basis[1][j][head_l] * ctrlpts[idx_v + head_l + (size[1] * (idx_u + k))][d0] <= basis[1][j][head_l] * c',
                            'c * sum(basis[1][j], 0, head_l + 1) == c * sum(basis[1][j], 0, head_l) + c * basis[1][j][head_l]']),
         },
-        rounds=2, timeout_ms=30000, chunks=14,
+        rounds=2, timeout_ms=120000, chunks=14,
+    ),
+
+    # the volume evaluator: layout index  iv + dv + size_v*(iu + du + size_u*(iw + dw))  (v fastest, then u, then w)
+    'evaluators.VolumeEvaluator.evaluate': dict(
+        props=['C01', 'C13', 'C18'],
+        args=OD([('self', 'self'), ('datadict', DD), ('kwargs', 'kwargs')]),
+        ghost_args=OD([('g_start', V), ('g_stop', V), ('d0', 'int'), ('c', 'real')]),
+        kwargs={'start': '$g_start', 'stop': '$g_stop'},
+        self={'_span_func': ('func', 'helpers.find_span_linear')},
+        funcs=FUNCS,
+        returns=('list', V),
+        replay_call="lambda m, a: m.VolumeEvaluator().evaluate(a['datadict'], start=a['g_start'], stop=a['g_stop'])",
+        locals={'spans': ('list', VI), 'basis': ('list', ('list', V)), 'eval_points': ('list', V)},
+        requires=["datadict['pdimension'] == 3", 'len(g_start) == 3', 'len(g_stop) == 3',
+                  'len(%s) == 3' % DEG, 'len(%s) == 3' % KV, 'len(%s) == 3' % SZ, 'len(%s) == 3' % SS,
+                  "datadict['dimension'] >= 1",
+                  'len(%s) == %s[0] * %s[1] * %s[2]' % (CP, SZ, SZ, SZ),
+                  'forall(q, 0, len(%s), len(%s[q]) == %s)' % (CP, CP, DIM),
+                  '0 <= d0', 'd0 < %s' % DIM, 'forall(q, 0, len(%s), %s[q][d0] <= c)' % (CP, CP)]
+                 + PER_DIR('0') + PER_DIR('1') + PER_DIR('2'),
+        ensures=['len(result) == %s * %s * %s' % (NS('0'), NS('1'), NS('2')),
+                 'forall(k, 0, len(result), len(result[k]) == %s)' % DIM,
+                 'forall(k, 0, len(result), result[k][d0] <= c)'],
+        loops={
+            0: dict(inv=['len(spans) == 3', 'len(basis) == 3', 'pdimension == 3',
+                         'implies(idx >= 1, %s and %s)' % (SPAN_OK('spans', '0'), BASIS_OK('basis', 'spans', '0')),
+                         'implies(idx >= 2, %s and %s)' % (SPAN_OK('spans', '1'), BASIS_OK('basis', 'spans', '1')),
+                         'implies(idx >= 3, %s and %s)' % (SPAN_OK('spans', '2'), BASIS_OK('basis', 'spans', '2'))]),
+            1: dict(inv=['len(eval_points) == i * (len(spans[1]) * len(spans[2]))',
+                         'forall(q, 0, len(eval_points), len(eval_points[q]) == dimension and eval_points[q][d0] <= c)']),
+            2: dict(inv=['len(eval_points) == i * (len(spans[1]) * len(spans[2])) + j * len(spans[2])', 'iu == spans[0][i] - degree[0]',
+                         'forall(q, 0, len(eval_points), len(eval_points[q]) == dimension and eval_points[q][d0] <= c)']),
+            3: dict(inv=['len(eval_points) == i * (len(spans[1]) * len(spans[2])) + j * len(spans[2]) + k',
+                         'iu == spans[0][i] - degree[0]', 'iv == spans[1][j] - degree[1]',
+                         'forall(q, 0, len(eval_points), len(eval_points[q]) == dimension and eval_points[q][d0] <= c)']),
+            4: dict(inv=['len(spt) == dimension', 'iu == spans[0][i] - degree[0]', 'iv == spans[1][j] - degree[1]',
+                         'iw == spans[2][k] - degree[2]', 'spt[d0] <= c * sum(basis[0][i], 0, du)']),
+            5: dict(inv=['len(temp2) == dimension', 'temp2[d0] <= c * sum(basis[1][j], 0, dv)',
+                         '0 <= iu + du', 'iu + du <= size[0] - 1']),
+            6: dict(inv=['len(temp) == dimension', 'temp[d0] <= c * sum(basis[2][k], 0, dw)',
+                         '0 <= iv + dv', 'iv + dv <= size[1] - 1', '0 <= iu + du', 'iu + du <= size[0] - 1'],
+                    hints=['0 <= iw + head_dw', 'iw + head_dw <= size[2] - 1',
+                           'size[0] * (iw + head_dw) >= 0', 'size[0] * (iw + head_dw) <= size[0] * (size[2] - 1)',
+                           'iu + du + (size[0] * (iw + head_dw)) <= size[0] * size[2] - 1',
+                           'iu + du + (size[0] * (iw + head_dw)) >= 0',
+                           'size[1] * (iu + du + (size[0] * (iw + head_dw))) <= size[1] * (size[0] * size[2] - 1)',
+                           'size[1] * (iu + du + (size[0] * (iw + head_dw))) >= 0',
+                           'basis[2][k][head_dw] >= 0',
+                           'basis[2][k][head_dw] * ctrlpts[iv + dv + (size[1] * (iu + du + (size[0] * (iw + head_dw))))][d0] <= basis[2][k][head_dw] * c',
+                           'c * sum(basis[2][k], 0, head_dw + 1) == c * sum(basis[2][k], 0, head_dw) + c * basis[2][k][head_dw]']),
+        },
+        rounds=2, timeout_ms=120000, chunks=14,
     ),
 }
